@@ -250,6 +250,18 @@ pub fn finding_mvreg_removed_dot_in_value_clock() -> (bool, String) {
     (got == Some(vec![2, 3]), format!("r0: write 1 (A1); r1<-A1, r2<-A1; r1: write 2 (B1, context {{A1,B1}}); r2: rm key {{A1}}; r0<-rm; r0: write 3 (A2); r2<-B1; r2: rm key {{B1}} (it has seen write 2); r0<-B1; r0<-second rm (causal).  r0 reads {:?}; write 2 was observed by the second remove and must be gone: want [3]", got))
 }
 
+/// F17b: Map::validate_merge looks at nested values only where the two entry clocks are concurrent: one actor used at two replicas
+/// under the SAME key of two equal maps is accepted in both directions, and the merge silently loses both members
+pub fn finding_nested_double_spend_unflagged() -> (bool, String) {
+    let (mut r1, mut r2): (MO, MO) = (Map::new(), Map::new());
+    let o = r1.update(7u8, r1.read_ctx().derive_add_ctx(1), |s, c| s.add(10, c)); r1.apply(o);
+    let o = r2.update(7u8, r2.read_ctx().derive_add_ctx(1), |s, c| s.add(11, c)); r2.apply(o);
+    let (v12, v21) = (r1.validate_merge(&r2), r2.validate_merge(&r1));
+    let mut m = r1.clone(); m.merge(r2.clone());
+    let left: Vec<u8> = m.get(&7).val.map(|s| s.read().val.into_iter().collect()).unwrap_or_default();
+    (v12.is_ok() && v21.is_ok() && left.is_empty(), format!("actor 1 adds 10 under key 7 at r1 and 11 under key 7 at r2 (dot 1.1 witnesses different members; both entry clocks are {{1:1}}): validate_merge {:?} / {:?}; after merge key 7 holds {:?} (a flat Orswot reports DoubleSpentDot for the same misuse)", v12, v21, left))
+}
+
 /// F16: Map::validate_op rejects an in-order update of a second key at its own origin
 pub fn finding_map_validate_op() -> (bool, String) {
     let mut m: MM = Map::new();
